@@ -316,6 +316,28 @@ def _sim_builtin_open(file, mode="r", *a, **kw):
     return _real_open(file, mode, *a, **kw)
 
 
+_real_stat = os.stat
+
+
+def _sim_stat(path, *a, **kw):
+    """os.stat (hence Path.stat / exists / is_file / os.path.getsize) for names on the SimDisk."""
+    ctx = CURRENT
+    if ctx is not None and isinstance(path, (str, os.PathLike)):
+        try:
+            s = os.fspath(path)
+        except TypeError:
+            s = None
+        if isinstance(s, str) and s.startswith(SIM_ROOT):
+            name = s[len(SIM_ROOT) :]
+            if name not in DISK.files or (ctx.open_fault is not None and ctx.open_fault["kind"] == "open_enoent"):
+                raise FileNotFoundError(errno.ENOENT, "no such simulated file", s)
+            import stat as _st
+
+            n = len(DISK.files[name])
+            return os.stat_result((_st.S_IFREG | 0o644, 1, 1, 1, 0, 0, n, 0, 0, 0))
+    return _real_stat(path, *a, **kw)
+
+
 def _sim_bytesio(*a, **kw):
     ctx = CURRENT
     if ctx is None or not a or not ctx.in_progress:
@@ -378,6 +400,7 @@ def install():
     pathlib.Path.open = _sim_path_open
     _builtins.open = _sim_builtin_open
     io.open = _sim_builtin_open
+    os.stat = _sim_stat
     _mm.BytesIO = _sim_bytesio
     _sm.BytesIO = _sim_bytesio
     import rv.container as _ct
@@ -392,6 +415,7 @@ def uninstall():
     pathlib.Path.open = _real_path_open
     _builtins.open = _real_open
     io.open = _real_io_open
+    os.stat = _real_stat
     _mm.BytesIO = _real_bytesio
     _sm.BytesIO = _real_bytesio
     import rv.container as _ct
@@ -426,7 +450,7 @@ class active:
 STUBS = [
     "SimDisk",
     "SimFile (file_or_name / write_to argument)",
-    "pathlib.Path.open, builtins.open, io.open (names under /simdisk/)",
+    "pathlib.Path.open, builtins.open, io.open, os.stat (names under /simdisk/)",
     "BytesIO@rv.modules.metamodule",
     "BytesIO@rv.modules.sampler",
     "BytesIO@rv.container and io.BytesIO@rv.modules.module (scratch buffer of clone(), only when a Ctx asks for it)",
